@@ -175,6 +175,37 @@ def mutations():
     return out
 
 
+def nesting():
+    """every statement form in every arm of the IF forms and after `:`: converted, or refused with a documented error - a pass that skips
+    an arm leaves half-transformed nodes behind, which surface as internal errors when the text is emitted"""
+    out = []
+    forms = sorted(set(f.replace("{_}", "").replace("{+}", " ") for f in FORMS))
+    frames = {"THEN arm": "IF Q1=1 THEN %s", "ELSE arm": "IF Q1=1 THEN Q2=1 ELSE %s", "THEN arm of ELSE IF": "IF Q1=1 THEN Q2=1 ELSE IF Q1=2 THEN %s ELSE Q2=3",
+              "final ELSE after ELSE IF": "IF Q1=1 THEN Q2=1 ELSE IF Q1=2 THEN Q2=2 ELSE %s", "final ELSE after two ELSE IF": "IF Q1=1 THEN Q2=1 ELSE IF Q1=2 THEN Q2=2 ELSE IF Q1=3 THEN Q2=3 ELSE %s",
+              "second ELSE IF arm": "IF Q1=1 THEN Q2=1 ELSE IF Q1=2 THEN Q2=2 ELSE IF Q1=3 THEN %s", "after a colon": "Q2=1:%s", "THEN arm after a colon": "IF Q1=1 THEN Q2=1:%s",
+              "nested IF in ELSE": "IF Q1=1 THEN Q2=1 ELSE IF Q1=2 THEN IF Q1=3 THEN %s ELSE %s ELSE %s"}
+    for fname, frame in frames.items():
+        oid = "nesting/%s" % fname
+
+        def run(frame=frame, oid=oid):
+            bad, known, n = [], set(), 0
+            for form in forms:
+                for kw in (dict(add_standard_prefix=False), dict(add_standard_prefix=True, initialize_vars=True, filter_unused_linenum=True, skip_procedure_headers=False, output_dependencies=False)):
+                    n += 1
+                    src = "100 %s\n200 END\n" % frame.replace("%s", form)
+                    try:
+                        convert(src, **kw)
+                    except Exception as e:  # noqa
+                        kind, what = classify(e)
+                        if kind == "known":
+                            known.add(what)
+                        elif kind == "internal":
+                            bad.append("%r -> %s" % (src, what))
+            return [ob(oid, not bad, "only documented refusals", bad[:4] or "%d conversions" % n, known_hits=sorted(known), bounded="%d statement forms x 2 option sets in this position" % len(forms))]
+        out += guarded(oid, run)
+    return out
+
+
 def literals():
     """strings the literal terminals accept are accepted by the conversions applied to them"""
     def run():
@@ -379,5 +410,49 @@ def cli_file_names():
     return guarded("cli-name", run)
 
 
+def cli_content():
+    """through the command line: text the grammar lets through verbatim (string literals, comments, DATA items) reaches the output file
+    whatever characters it holds - what convert() accepts the command line accepts"""
+    def run():
+        import tempfile
+        from coco import decb_to_b09
+        res = []
+        d = tempfile.mkdtemp(dir=os.environ.get("XDG_RUNTIME_DIR") or "/dev/shm")
+        try:
+            for name, text in {"accented letter in a string literal": '10 PRINT "caf\u00e9"\n', "copyright sign in a comment": "10 REM \u00a9 1986\n", "n-tilde in a DATA item": "10 DATA se\u00f1or,1\n20 READ A$,B\n",
+                               "quote comment with a euro sign": "10 'price \u20ac\n", "DEL in a string literal": '10 A$="\x7f"\n', "7-bit text": '10 PRINT "cafe"\n'}.items():
+                src = os.path.join(d, "prog.bas")
+                dst = os.path.join(d, "out.b09")
+                with open(src, "w") as f:       # the same default encoding the tool reads with
+                    f.write(text)
+                for flags in ([], ["-D", "-z"]):
+                    try:
+                        want = convert(text, procname="prog", filter_unused_linenum="-z" in flags)
+                    except Exception as e:  # noqa
+                        want = None
+                    try:
+                        decb_to_b09.start(flags + [src, dst])
+                        got = "converted"
+                        if want is not None:
+                            with open(dst) as f:
+                                body = f.read()
+                            marks = [c for c in text if ord(c) > 126]
+                            if any(c not in body for c in marks):
+                                got = "converted, but %r is missing from the output file" % [c for c in marks if c not in body]
+                    except SystemExit as e:
+                        got = "exit %s" % e.code
+                    except Exception as e:  # noqa
+                        kind, what = classify(e)
+                        got = "documented refusal" if kind == "documented" else (what or kind)
+                    ok = got == "converted" if want is not None else got != "converted" and (got == "documented refusal" or got.startswith("exit"))
+                    res.append(ob("cli-content/%s %s" % (name, " ".join(flags)), ok, "converted like convert()" if want is not None else "refused like convert()", got, repr(text)))
+        finally:
+            for f in os.listdir(d):
+                os.unlink(os.path.join(d, f))
+            os.rmdir(d)
+        return res
+    return guarded("cli-content", run)
+
+
 def obligations():
-    return arity() + tables() + operators() + literals() + data_and_procnames() + loop_balance() + no_hang() + config_files() + cli_file_names() + mutations()
+    return arity() + tables() + operators() + literals() + data_and_procnames() + loop_balance() + no_hang() + config_files() + cli_file_names() + cli_content() + nesting() + mutations()
